@@ -172,6 +172,9 @@ func dsnMain(args []string) error {
 				val = []string{"true", "false"}[rng.Intn(2)]
 			case "i":
 				val = strconv.Itoa(rng.Intn(2000) - 1000)
+				if rng.Intn(4) == 0 { // the whole range of an int field
+					val = []string{"2147483647", "2147483648", "-2147483648", "-2147483649", "4294967296", "9223372036854775807", "-9223372036854775808"}[rng.Intn(7)]
+				}
 			default:
 				val = dsnValue(rng, true)
 				if kind == "" && rng.Intn(2) == 0 {
@@ -221,6 +224,9 @@ func dsnMain(args []string) error {
 			}
 			t.Flag, t.TLS = rng.Intn(2) == 0, rng.Intn(2) == 0
 			t.Num, t.Timeout = rng.Intn(4001)-2000, rng.Intn(100)
+			if rng.Intn(3) == 0 { // the whole range of an int field
+				t.Num = []int{2147483647, 2147483648, -2147483648, -2147483649, 1 << 40, 9223372036854775807, -9223372036854775808}[rng.Intn(7)]
+			}
 			back := &dsnT{}
 			var text string
 			st := safeCall(func() error {
